@@ -90,3 +90,15 @@ add(
     "Exploration: Hypothesis programs (quick 4k, thorough 60k) of mapping operations (set, del, pop, popitem, setdefault, update from mapping/pairs, clear, whole-mapping assignment incl. self-assignment), interval address/size changes and moves, save+load; symbolic_expressions_at/_at_offset at interval scope must return exactly the ordered list of (interval, offset, expression) triples the scan selects (identity of interval and expression), and at section/module/IR scope an answer between the in-extent scan and the plain scan, per interval in increasing order. Sampling, not proof.",
     "Trusts vlib/scan.py, Hypothesis.",
 )
+add(
+    "C09",
+    "identity walk over loaded IRs generated from reference-dense specs; single-fault injection at message level for each reference kind x wrong target",
+    "Exploration: quick 5k / thorough 80k cases. Positive: every symbol referent, entry point, edge endpoint (also through the blocks' edge views), expression symbol and AuxData UUID/Offset leaf of the loaded IR must be the very object reached by containment iteration (attached) or a plain uuid.UUID (unattached), and no UUID may be reachable as two objects. Negative: each of the 7 reference kinds is redirected to a missing UUID or to a node of each wrong kind present in the IR; load must raise DeserializationError. Sampling, not proof.",
+    "Trusts vlib/spec.py, irbuild.py, auxref.py, the protobuf runtime.",
+)
+add(
+    "C18",
+    "differential testing of deep_eq against snapshot equality over generated IR pairs; mechanical single-field perturbation catalogue",
+    "Exploration: quick 3k / thorough 50k specs, each with up to 6 perturbations from a catalogue covering every compared field of every node kind (plus the non-compared module order and AuxData values); deep_eq must equal equality of the documented-fields snapshot for every ordered pair among the original, an independently routed copy, a save/load copy and each perturbed copy; on sub-nodes and CFG.deep_eq reflexivity, symmetry, True for corresponding nodes of equal copies and False when the subtree's own content differs are demanded. Sampling, not proof.",
+    "Trusts vlib/snapshot.py as the definition of the compared fields, vlib/irbuild.py.",
+)
